@@ -114,6 +114,8 @@ type e2eSession struct {
 	reply  []kaReply
 	seenN  map[int64]int // pings sent per id (what the client must have received before it answers)
 	answ   map[int64]bool
+	pend   map[string]map[int64]bool // reference view for the evidence classes
+	live   []string
 	states []string
 	failed string
 }
@@ -146,6 +148,10 @@ func (s *e2eSession) ping(label, st string, id int64) bool {
 		return s.fail("state %s: backend %s could not send a keep-alive: %v", st, label, err)
 	}
 	s.seenN[id]++
+	if s.pend[label] == nil {
+		s.pend[label] = map[int64]bool{}
+	}
+	s.pend[label][id] = true
 	want := s.seenN[id]
 	deadline := time.Now().Add(e2e.Watchdog)
 	for s.clientKeepAlives(id) < want {
@@ -157,27 +163,40 @@ func (s *e2eSession) ping(label, st string, id int64) bool {
 	return true
 }
 
+// classify names the class of a reply for the evidence counters, from a reference view of
+// what is pending where (set per connection; a reply uses up the id on the first live
+// connection that has it, current before in-flight). It is bookkeeping only, not the oracle.
 func (s *e2eSession) classify(id int64) string {
-	sentBy := map[string]int{}
+	var on []string
+	for _, l := range s.live {
+		if s.pend[l][id] {
+			on = append(on, l)
+		}
+	}
+	if len(on) > 0 {
+		delete(s.pend[on[0]], id)
+		if len(on) > 1 {
+			return "pending-on-both-backends"
+		}
+		return "pending"
+	}
+	for l, m := range s.pend {
+		if m[id] {
+			_ = l
+			return "pending-only-on-a-connection-that-is-gone"
+		}
+	}
 	for _, p := range s.pings {
 		if p.ID == id {
-			sentBy[p.Conn]++
+			return "answered-before"
 		}
 	}
-	switch {
-	case len(sentBy) == 0:
-		for _, k := range s.c.KeepAlives() {
-			if k.ID == id {
-				return "echo-of-proxy-keepalive"
-			}
+	for _, k := range s.c.KeepAlives() {
+		if k.ID == id {
+			return "echo-of-proxy-keepalive"
 		}
-		return "id-nobody-sent"
-	case s.answ[id]:
-		return "answered-before"
-	case len(sentBy) > 1:
-		return "first-answer:id-sent-by-both-backends"
 	}
-	return "first-answer"
+	return "id-nobody-sent"
 }
 
 func (s *e2eSession) replyTo(st string, id int64) bool {
@@ -216,6 +235,7 @@ func (s *e2eSession) barrier(label, st string) bool {
 // client's replies are handled now by a handler that forwards.
 func (s *e2eSession) round(st string, live []string, canBarrier bool) bool {
 	s.states = append(s.states, st)
+	s.live = live
 	alphabet := []int64{1, 2, 3}
 	for i := 0; i < s.sp.Ops && s.failed == ""; i++ {
 		switch r := s.rng.Intn(20); {
@@ -225,9 +245,11 @@ func (s *e2eSession) round(st string, live []string, canBarrier bool) bool {
 			}
 		case r < 12: // an id the client has and did not answer yet
 			var open []int64
-			for id := range s.seenN {
-				if !s.answ[id] && id < 1<<40 {
-					open = append(open, id)
+			for _, l := range live {
+				for id := range s.pend[l] {
+					if id < 1<<40 {
+						open = append(open, id)
+					}
 				}
 			}
 			if len(open) == 0 {
@@ -583,7 +605,7 @@ func runE2E(r *lib.Run) {
 				sp := specs[i]
 				r.LogCase(map[string]any{"layer": "e2e", "spec": sp})
 				s := &e2eSession{r: r, sp: sp, rng: rand.New(rand.NewSource(sp.Seed)), h: h, A: A, B: B,
-					name: fmt.Sprintf("k%d_%d", r.Seed%1000, i), conns: map[string]*e2e.ManualConn{}, seenN: map[int64]int{}, answ: map[int64]bool{}}
+					name: fmt.Sprintf("k%d_%d", r.Seed%1000, i), conns: map[string]*e2e.ManualConn{}, seenN: map[int64]int{}, answ: map[int64]bool{}, pend: map[string]map[int64]bool{}}
 				ok, pv := lib.Returns(12*e2e.Watchdog, s.run)
 				if !ok {
 					r.Inconclusive(fmt.Sprintf("e2e session %d (%s, %d) did not end within the watchdog", i, sp.Kind, sp.Proto))
